@@ -11,7 +11,7 @@ use std::ffi::OsString;
 
 pub static DEF: PropDef = PropDef {
     id: "C11",
-    rule: "(a) grammar complement: token sequences over units {-true, -false, -print, -delete, '-exec rec {} ;', '-name x', '!', -a, -o, ',', '(', ')', a primary without its operand, an unterminated -exec, an unknown primary}: every sequence of <= 4 (thorough 5) units exhaustively, plus random sequences of <= 12 units obtained by mutating valid expressions (drop an operand, duplicate/drop an operator, unbalance a parenthesis, move '!' to the end). For every sequence that the reference recogniser (GNU token classes, DESIGN.md appendix A) classifies as a non-sentence: exit status != 0, a diagnostic on stderr, nothing on stdout, the rec recorder never ran, the file tree is unchanged (snapshot). (b) invalid operands: a table of unquestionably invalid operands per primary (-type, -xtype, -size, numeric tests, -perm, -regextype, -regex, -printf, -newerXY, -user, -group, -exec, -maxdepth, -mindepth), and words that merely contain a primary's name (-zzNAME, -xyz-NAME, -NAMEx, '-follow -NAME' as one word, for every name of the vocabulary, followed by the operand that name would take), embedded at a random position of an otherwise valid expression containing -print, -delete and -exec rec: same oracle. (b') -regex/-iregex operands whose group delimiters do not balance: every string of <= 5 (thorough 6) tokens over {a, open group, close group, .*} in emacs, posix-basic, posix-extended and sed spelling (for posix-extended only those that leave a group open even when an unmatched ')' is read as ordinary): same oracle. (c) no panic / abort: arbitrary vectors over the full vocabulary of primaries with operands drawn from valid values, near-misses and arbitrary Unicode strings (multi-byte after '%' and '\\\\', huge numbers, stray brackets, terminated but malformed bracket expressions (reversed ranges, unknown classes, classes as range ends, equivalence classes, collating symbols), dates with digits of other scripts), over a tree with entries owned by ids without passwd/group entries, fifos, sockets, dangling and looping links, far-future and pre-epoch timestamps, and entries removed by an earlier action of the same expression (-delete -ls, -delete -printf %s): in process (catch_unwind; signature = panic location) and 1 in 8 through the built binary (status must be an ordinary exit: not 101, not 134, not a signal). Non-trivial = (a) a non-sentence of >= 3 units containing at least one complete primary; (b) always; (c) the vector parses and visits >= 1 entry, or contains a multi-byte operand. Distinct = distinct case JSON.",
+    rule: "(a) grammar complement: token sequences over units {-true, -false, -print, -delete, '-exec rec {} ;', '-name x', '!', -a, -o, ',', '(', ')', a primary without its operand, an unterminated -exec, an unknown primary}: every sequence of <= 4 (thorough 5) units exhaustively, plus random sequences of <= 12 units obtained by mutating valid expressions (drop an operand, duplicate/drop an operator, unbalance a parenthesis, move '!' to the end). For every sequence that the reference recogniser (GNU token classes, DESIGN.md appendix A) classifies as a non-sentence: exit status != 0, a diagnostic on stderr, nothing on stdout, the rec recorder never ran, the file tree is unchanged (snapshot). (b) invalid operands: a table of unquestionably invalid operands per primary (-type, -xtype, -size, numeric tests, -perm, -regextype, -regex, -printf, -newerXY, -user, -group, -exec, -maxdepth, -mindepth), and words that merely contain a primary's name (-zzNAME, -xyz-NAME, -NAMEx, '-follow -NAME' as one word, for every name of the vocabulary, followed by the operand that name would take), embedded at a random position of an otherwise valid expression containing -print, -delete and -exec rec: same oracle. (b') -regex/-iregex operands whose group delimiters do not balance: every string of <= 5 (thorough 6) tokens over {a, open group, close group, .*} in emacs, posix-basic, posix-extended and sed spelling (for posix-extended only those that leave a group open even when an unmatched ')' is read as ordinary): same oracle. (c) no panic / abort: arbitrary vectors over the full vocabulary of primaries with operands drawn from valid values, near-misses and arbitrary Unicode strings (multi-byte after '%' and '\\\\', huge numbers, stray brackets, terminated but malformed bracket expressions (reversed ranges, unknown classes, classes as range ends, equivalence classes, collating symbols), dates with digits of other scripts), over a tree with entries owned by ids without passwd/group entries, fifos, sockets, dangling and looping links, far-future and pre-epoch timestamps, and entries removed by an earlier action of the same expression (-delete -ls, -delete -printf %s): in process (catch_unwind; signature = panic location) and 1 in 8 through the built binary (status must be an ordinary exit: not 101, not 134, not a signal), a third of those with stdout and/or stderr that cannot be written (/dev/full, a pipe nobody reads; death by SIGPIPE counts as ordinary there). Non-trivial = (a) a non-sentence of >= 3 units containing at least one complete primary; (b) always; (c) the vector parses and visits >= 1 entry, or contains a multi-byte operand. Distinct = distinct case JSON.",
     assumptions: &[
         "one-directional on purpose: acceptance and meaning of valid sentences is C01's subject",
         "files created by -fprint*/-fls at parse time are not counted as 'an action' (the statement lists visiting, printing, executing, deleting)",
@@ -514,6 +514,10 @@ pub struct VecCase {
     /// (binary runs only) the token at this index is replaced by bytes that are not valid UTF-8
     #[serde(default)]
     pub raw_bytes_at: Option<usize>,
+    /// (binary runs only) low nibble: stdout, high nibble: stderr; 0 captured, 1 /dev/full (writes
+    /// fail with ENOSPC), 2 a pipe nobody reads (EPIPE)
+    #[serde(default)]
+    pub sinks: u8,
 }
 
 const NASTY: &[&str] = &[
@@ -712,7 +716,7 @@ fn gen_vec(g: &mut Gen) -> VecCase {
             _ => vec!["c/r".to_string()],
         };
         let binary = g.chance(1, 10);
-        return VecCase { flags, roots, tokens, binary, raw_bytes_at: None };
+        return VecCase { flags, roots, tokens, binary, raw_bytes_at: None, sinks: 0 };
     }
     let n = g.usize_in(0, 8);
     for _ in 0..n {
@@ -767,7 +771,8 @@ fn gen_vec(g: &mut Gen) -> VecCase {
     // (not in front of an operand that looks like an absolute path, e.g. "-perm /222": the lexical
     // sandbox guard identifies pattern operands by the primary before them)
     let raw_bytes_at = if binary && !tokens.is_empty() && g.chance(1, 4) { Some(g.below(tokens.len() as u64) as usize).filter(|k| tokens.get(k + 1).map_or(true, |n| !n.starts_with('/'))) } else { None };
-    VecCase { flags, roots, tokens, binary, raw_bytes_at }
+    let sinks = if binary && g.chance(1, 3) { (g.below(3) as u8) | ((g.below(3) as u8) << 4) } else { 0 };
+    VecCase { flags, roots, tokens, binary, raw_bytes_at, sinks }
 }
 
 fn weird_tree() -> TreeSpec {
@@ -846,13 +851,16 @@ fn check_vec(ctx: &mut Ctx, c: &VecCase) -> Outcome {
             }
         }
         let log = ctx.root.join("rec.log");
-        let o = ctx.run_bin(&find_bin(), &a, &BinOpts { env: vec![("VERIF_REC_LOG".into(), log.into_os_string())], timeout_s: 60, ..Default::default() });
-        if !o.ordinary() {
+        let o = ctx.run_bin(&find_bin(), &a, &BinOpts { env: vec![("VERIF_REC_LOG".into(), log.into_os_string())], timeout_s: 60, stdout_sink: c.sinks & 15, stderr_sink: c.sinks >> 4, ..Default::default() });
+        // being killed by SIGPIPE is how a program conventionally ends when nobody reads its output
+        let sigpipe = o.signal == Some(13) && (c.sinks & 15 == 2 || c.sinks >> 4 == 2);
+        if !o.ordinary() && !sigpipe {
             let stderr = lossy(&o.stderr);
             let loc = stderr.lines().find(|l| l.contains("panicked at")).map(|l| l.split("panicked at ").nth(1).unwrap_or("?").trim_end_matches(':').to_string()).unwrap_or_else(|| format!("signal-{:?}", o.signal));
             let loc_short: String = loc.rsplit("/src/").next().unwrap_or(&loc).split(':').take(2).collect::<Vec<_>>().join(":");
             let loc_short = if stderr.contains("overflowed its stack") { format!("stack-overflow:{}", if args.iter().filter(|a| *a == "(").count() >= 500 { "nested-parentheses" } else { "other-shape" }) } else { loc_short };
-            return fail(format!("C11:panic:{loc_short}"), format!("find {} (binary)\nexit {:?} signal {:?}\nstderr {:?}", shown(&args), o.code, o.signal, stderr.chars().take(2000).collect::<String>()));
+            let loc_short = if c.sinks != 0 && !loc_short.starts_with("stack-overflow") { format!("{loc_short}:output-fails") } else { loc_short };
+            return fail(format!("C11:panic:{loc_short}"), format!("find {} (binary; stdout {}, stderr {})\nexit {:?} signal {:?}\nstderr {:?}", shown(&args), ["captured", "/dev/full", "closed pipe"][(c.sinks & 15) as usize % 3], ["captured", "/dev/full", "closed pipe"][(c.sinks >> 4) as usize % 3], o.code, o.signal, stderr.chars().take(2000).collect::<String>()));
         }
         status = o.code.unwrap_or(-1);
         visited = !o.stdout.is_empty();
@@ -873,6 +881,7 @@ fn check_vec(ctx: &mut Ctx, c: &VecCase) -> Outcome {
         .class_if(multibyte, "multi-byte-operand")
         .class_if(c.binary, "through-binary")
         .class_if(c.binary && c.raw_bytes_at.is_some(), "non-utf8-argument")
+        .class_if(c.binary && c.sinks != 0, "output-that-cannot-be-written")
         .class_if(c.tokens.iter().any(|t| t == "-delete"), "with-delete")
         .class_if(c.tokens.iter().any(|t| t == "-ls" || t == "-fls"), "with-ls")
         .sample(json!({"cmdline": format!("find {}", shown(&args)), "exit": status}))
@@ -882,7 +891,7 @@ fn check_vec(ctx: &mut Ctx, c: &VecCase) -> Outcome {
 /// deterministic probes of shapes named in the statement
 fn probes() -> Vec<VecCase> {
     let s = |x: &str| x.to_string();
-    let mk = |tokens: Vec<&str>| VecCase { flags: vec![], roots: vec![s("c/r")], tokens: tokens.iter().map(|x| s(x)).collect(), binary: false, raw_bytes_at: None };
+    let mk = |tokens: Vec<&str>| VecCase { flags: vec![], roots: vec![s("c/r")], tokens: tokens.iter().map(|x| s(x)).collect(), binary: false, raw_bytes_at: None, sinks: 0 };
     vec![
         mk(vec!["-ls"]),
         mk(vec!["-delete", "-ls"]),
@@ -929,15 +938,26 @@ fn probes() -> Vec<VecCase> {
         mk(vec!["-name", "@BIG:3000000@"]),
         mk(vec!["-regex", "@BIG:300000@"]),
         mk(vec!["-printf", "@BIG:3000000@"]),
+        // output that cannot be written
+        VecCase { flags: vec![], roots: vec![s("c/r")], tokens: vec![s("-print")], binary: true, raw_bytes_at: None, sinks: 1 },
+        VecCase { flags: vec![], roots: vec![s("c/r")], tokens: vec![s("-print0")], binary: true, raw_bytes_at: None, sinks: 2 },
+        VecCase { flags: vec![], roots: vec![s("c/r")], tokens: vec![s("-printf"), s("%p %s\\n")], binary: true, raw_bytes_at: None, sinks: 1 },
+        VecCase { flags: vec![], roots: vec![s("c/r")], tokens: vec![s("-printf"), s("%p")], binary: true, raw_bytes_at: None, sinks: 2 },
+        VecCase { flags: vec![], roots: vec![s("c/r")], tokens: vec![s("-ls")], binary: true, raw_bytes_at: None, sinks: 1 },
+        VecCase { flags: vec![], roots: vec![s("c/r")], tokens: vec![s("-ls")], binary: true, raw_bytes_at: None, sinks: 2 },
+        VecCase { flags: vec![], roots: vec![s("c/r"), s("c/missing")], tokens: vec![s("-exec"), s("no-such-command-xyz"), s(";"), s("-delete")], binary: true, raw_bytes_at: None, sinks: 1 << 4 },
+        VecCase { flags: vec![], roots: vec![s("c/r"), s("c/missing")], tokens: vec![s("-exec"), s("no-such-command-xyz"), s("{}"), s("+")], binary: true, raw_bytes_at: None, sinks: 2 << 4 },
+        VecCase { flags: vec![], roots: vec![s("c/r")], tokens: vec![s("-bogus")], binary: true, raw_bytes_at: None, sinks: 1 << 4 },
+        VecCase { flags: vec![], roots: vec![s("c/r")], tokens: vec![s("-delete"), s("-ls")], binary: true, raw_bytes_at: None, sinks: 0x11 },
         // nesting (through the binary: an exhausted stack cannot be caught in process)
-        VecCase { flags: vec![], roots: vec![s("c/r")], tokens: vec![s("@PARENS:200@")], binary: true, raw_bytes_at: None },
-        VecCase { flags: vec![], roots: vec![s("c/r")], tokens: vec![s("@PARENS:2000@")], binary: true, raw_bytes_at: None },
-        VecCase { flags: vec![], roots: vec![s("c/r")], tokens: vec![s("@PARENS:20000@")], binary: true, raw_bytes_at: None },
-        VecCase { flags: vec![], roots: vec![s("c/r")], tokens: vec![s("@PARENS:90000@")], binary: true, raw_bytes_at: None },
-        VecCase { flags: vec![], roots: vec![s("c/r")], tokens: std::iter::repeat(s("!")).take(90000).chain([s("-true")]).collect(), binary: true, raw_bytes_at: None },
-        VecCase { flags: vec![], roots: vec![s("c/r")], tokens: std::iter::repeat([s("-true"), s("-o")]).take(40000).flatten().chain([s("-true")]).collect(), binary: true, raw_bytes_at: None },
-        VecCase { flags: vec![], roots: vec![s("c/r")], tokens: vec![s("-name"), s("x")], binary: true, raw_bytes_at: Some(1) },
-        VecCase { flags: vec![], roots: vec![s("c/r")], tokens: vec![s("-print")], binary: true, raw_bytes_at: Some(0) },
+        VecCase { flags: vec![], roots: vec![s("c/r")], tokens: vec![s("@PARENS:200@")], binary: true, raw_bytes_at: None, sinks: 0 },
+        VecCase { flags: vec![], roots: vec![s("c/r")], tokens: vec![s("@PARENS:2000@")], binary: true, raw_bytes_at: None, sinks: 0 },
+        VecCase { flags: vec![], roots: vec![s("c/r")], tokens: vec![s("@PARENS:20000@")], binary: true, raw_bytes_at: None, sinks: 0 },
+        VecCase { flags: vec![], roots: vec![s("c/r")], tokens: vec![s("@PARENS:90000@")], binary: true, raw_bytes_at: None, sinks: 0 },
+        VecCase { flags: vec![], roots: vec![s("c/r")], tokens: std::iter::repeat(s("!")).take(90000).chain([s("-true")]).collect(), binary: true, raw_bytes_at: None, sinks: 0 },
+        VecCase { flags: vec![], roots: vec![s("c/r")], tokens: std::iter::repeat([s("-true"), s("-o")]).take(40000).flatten().chain([s("-true")]).collect(), binary: true, raw_bytes_at: None, sinks: 0 },
+        VecCase { flags: vec![], roots: vec![s("c/r")], tokens: vec![s("-name"), s("x")], binary: true, raw_bytes_at: Some(1), sinks: 0 },
+        VecCase { flags: vec![], roots: vec![s("c/r")], tokens: vec![s("-print")], binary: true, raw_bytes_at: Some(0), sinks: 0 },
     ]
 }
 
